@@ -379,3 +379,37 @@ def replay_lex(obj, oracle):
     print("observed:", b)
     print("oracle  :", v or "ok")
     return 1 if v else 0
+
+
+# ------------------------------------------------------------------ well-formed token sequences (C05 acceptance clause)
+WF_TOKENS = ["select", "FROM", "a", "b", "x", "B", "X", "t1", "_c", "c_1", "null", "NULL", "True", "fAlse", "9a", "b2", "x9",
+             "0", "1", "12", "007", "1.5", "1.", "0.5", "10.25", "x'1F'", "X\"aB\"", "b'01'", "B\"10\"", "x''", "b\"\"",
+             "'s'", "''", "'a''b'", "'a\\'b'", "'a\\\\'", "\"d\"", "\"a\"\"b\"", "\"a\\\"b\"", "`n`", "`a b`", "`a.b`", "``", "'/* -- #'",
+             "<=>", "<=", ">=", "<>", "!=", "<<", ">>", "&&", "||", "<", ">", "!", "&", "|", "-", "/", "~", "*", "^",
+             ",", ";", "=", "+", ".", "%", "中文", "é", "$v", "@u", "?", ":p", "{", "}", "\\"]
+WF_SEPS = ["", "", " ", " ", "  ", "\n", "\t", "\r\n", " /* c */ ", "/**/", "/***/", " -- c\n", " # c\n", "　"]
+
+
+def gen_wellformed(rng, count, maxtok=14):
+    out = []
+    for _ in range(count):
+        n = rng.randint(1, maxtok)
+        s = ""
+        depth = []
+        for i in range(n):
+            r = rng.random()
+            if r < 0.08:
+                k = rng.choice("([")
+                depth.append(k)
+                s += k
+            elif r < 0.16 and depth:
+                k = depth.pop()
+                s += ")" if k == "(" else "]"
+            else:
+                s += rng.choice(WF_TOKENS)
+            s += rng.choice(WF_SEPS)
+        while depth:
+            k = depth.pop()
+            s += ")" if k == "(" else "]"
+        out.append([ord(c) for c in s])
+    return out
